@@ -181,3 +181,24 @@ def flaky_episodes(seed, count):
         ep2["ops"] = [{"op": "open"}] + pre + [{"op": "rewind"}, {"op": "drain"}, {"op": "rewind", "fail": True}]
         eps.append(ep2)
     return eps
+
+
+def corrupt_episodes(seed, count):
+    """damaged gzip / zstd streams (cut short, or a byte of the trailer / body flipped): the first complete pass
+    is the reference (lines, then usually an error); every pass after a rewind must replay exactly that"""
+    r = random.Random(seed ^ 0xBAD)
+    eps = []
+    for t in range(count):
+        kind = ("gzip_cursor", "zstd_cursor", "gzip_file", "zstd_file")[t % 4]
+        nl = r.choice([3, 20, 200])
+        text = rtext(r, nl)
+        ep = {"fam": "lender", "src": "corrupt", "kind": kind, "input": list(text), "take": []}
+        params(r, ep)
+        ep["frames"] = 1
+        ep["corrupt"] = r.choice([{"trunc": 1}, {"trunc": 4}, {"trunc": 9}, {"flip": 0}, {"flip": 3}, {"flip": 7},
+                                  {"trunc": r.randrange(1, 40)}, {"flip": r.randrange(0, 60)}])
+        c1, c2 = r.randrange(1, nl + 2), r.randrange(1, nl + 2)
+        ep["ops"] = [{"op": "open"}, {"op": "drain"}, {"op": "rewind"}, {"op": "drain"}, {"op": "rewind"},
+                     {"op": "nexts", "c": c1}, {"op": "rewind"}, {"op": "nexts", "c": c2}, {"op": "rewind"}, {"op": "drain"}]
+        eps.append(ep)
+    return eps
